@@ -588,6 +588,7 @@ fn block_iters(b: &Block, sub_delay: u16) -> u64 {
         Block::SetCcr(_) => 5,
         Block::Raw(v) => (v.len() as u64 + 1) / 2,
         Block::Tick => 5,
+        Block::Filler(_) => 4,
         Block::Heavy => 2,
         Block::SetVector { .. } => 4,
         Block::LoadEr5(_) => 1,
@@ -680,7 +681,8 @@ pub fn generate(rng: &mut Rng, tier: Tier, frames: bool) -> Scn {
     for _ in 0..nblocks {
         let b = match rng.below(22) {
             0..=4 => Block::Delay(rng.range(1, 40) as u16),
-            5 | 6 => Block::Arith(rng.u8()),
+            5 => Block::Arith(rng.u8()),
+            6 => Block::Filler(rng.u32()),
             7 => Block::Call,
             8 => Block::Tick,
             9 | 10 => {
